@@ -269,9 +269,23 @@ func cmdCheck(args []string) int {
 	if *tier == "thorough" {
 		timeout = 120
 	}
-	outDir := filepath.Join(verifDir, "out", id)
+	// one scratch directory per run (two runs of one check may overlap); directories left by runs
+	// that are no longer alive are removed, a clean run removes its own at the end
+	outDir := filepath.Join(verifDir, "out", fmt.Sprintf("%s.%d", id, os.Getpid()))
 	if *outOverride != "" {
 		outDir = *outOverride
+	} else {
+		old, _ := filepath.Glob(filepath.Join(verifDir, "out", id+".*"))
+		old = append(old, filepath.Join(verifDir, "out", id))
+		for _, d := range old {
+			pid := strings.TrimPrefix(filepath.Ext(d), ".")
+			if pid != "" {
+				if _, err := os.Stat(filepath.Join("/proc", pid)); err == nil {
+					continue // that run is still alive
+				}
+			}
+			os.RemoveAll(d)
+		}
 	}
 	var overlay map[string][]byte
 	if *overlayFile != "" {
@@ -391,6 +405,23 @@ func cmdCheck(args []string) int {
 		}
 	}
 	solveAll(items, outDir, timeout, 12)
+	// A claimed obligation that ran out of time (no definite answer) is tried again, alone and with
+	// three times the time: on a machine loaded by other jobs a goal that needs a second can starve.
+	// Only a handful is retried - many undecided goals mean the code changed, not that the machine is busy.
+	if !*rebase {
+		var again []*workItem
+		for _, it := range items {
+			if it.quickOnly || it.o.Static || it.o.Cover {
+				continue
+			}
+			if r := it.o.Result; r == "timeout" || r == "unknown" || r == "error" || r == "cancelled" {
+				again = append(again, it)
+			}
+		}
+		if len(again) > 0 && len(again) <= 8 {
+			solveAll(again, outDir, timeout*3, 2)
+		}
+	}
 
 	// group results
 	groups := map[string]*groupStatus{}
@@ -738,6 +769,9 @@ func cmdCheck(args []string) int {
 	}
 	if violations > 0 {
 		return 1
+	}
+	if *outOverride == "" && len(undecided) == 0 {
+		os.RemoveAll(outDir)
 	}
 	if selftestBad > 0 {
 		return internalErr("selftest corpus of %s: a stored property-breaking change was not reported, or a harmless edit was", id)
